@@ -123,6 +123,7 @@ def impl(case):
         species.append(spc)
         results.append(['val', val])
 
+    stale = []
     for op in case['ops']:
         i = op[1]
         if i >= len(objs):
@@ -155,7 +156,17 @@ def impl(case):
             results.append(['val', _arr(t.positions)])
         elif kind == 'metrics':
             mt = t.metrics()
-            mt.speed(), mt.tracer_diffusivity(dimensions=3), mt.vibration_amplitude(), mt.particle_density()
+            got = [np.array(mt.speed()), float(mt.tracer_diffusivity(dimensions=3)), float(mt.vibration_amplitude()), float(mt.particle_density())]
+            # the same queries on a freshly built trajectory with the same frames: whatever was asked of t before must not matter
+            import copy
+            fresh = type(t)(species=list(t.species), coords=np.array(copy.deepcopy(t).positions), lattice=t.get_lattice(), time_step=t.time_step,
+                            metadata=copy.deepcopy(t.metadata))
+            fm = fresh.metrics()
+            want = [np.array(fm.speed()), float(fm.tracer_diffusivity(dimensions=3)), float(fm.vibration_amplitude()), float(fm.particle_density())]
+            if not (got[0].shape == want[0].shape and np.allclose(got[0], want[0], rtol=1e-9, atol=1e-9)
+                    and all(abs(a - b) <= 1e-9 * max(abs(a), abs(b)) + 1e-300 for a, b in zip(got[1:], want[1:]))):
+                stale.append(f'op {len(mops)}: metrics of object {i} (speed shape {got[0].shape}, D {got[1]}) differ from the metrics of a fresh trajectory '
+                             f'with the same {len(t)} frames (speed shape {want[0].shape}, D {want[1]})')
             mops.append(['QDisp', i])
             results.append(['val', _arr(t.displacements)])
         elif kind in ('driftcorr', 'msd', 'com'):
@@ -205,7 +216,7 @@ def impl(case):
             mops.append(['OExtend', i, j])
             t.extend(objs[j])
             results.append(['none'])
-    return {'store0': store0, 'mops': mops, 'results': results}
+    return {'store0': store0, 'mops': mops, 'results': results, 'stale': stale[:3]}
 
 
 def oracle(case, out):
@@ -213,7 +224,7 @@ def oracle(case, out):
         return []
     if 'mops' not in out:
         return [('c15/harness-error', f"{out.get('error')}: {out.get('msg')} {out.get('tb', '')[-400:]}")]
-    fs = []
+    fs = [('ops/stale-derived-result', m) for m in out.get('stale', [])]
     c0 = np.array(case['coords'], dtype=np.int64)
     truth = [np.mod(c0, DEN)]
     mutated = set()
